@@ -1,3 +1,5 @@
+import sys, os
+sys.path.insert(0, os.path.dirname(os.path.dirname(os.path.abspath(__file__))))
 from sa.cli import Analysis
 from sa.algebra import *
 from sa.lift import *
@@ -6,6 +8,7 @@ A=Analysis()
 prog=A.prog
 import itertools
 for cls in prog.penalties:
+    if len(sys.argv) > 1 and cls.name not in sys.argv[1:]: continue
     spec=dict(prog.spec_of(cls) or [])
     bools=[k for k,t in spec.items() if 'bool' in t]
     for var in ([dict(zip(bools,v)) for v in itertools.product([False,True],repeat=len(bools))] or [{}]):
